@@ -8,7 +8,7 @@ export PYTHONHASHSEED=0 PIP_NO_INDEX=1 PYTHONPATH=/repo:$PWD/tools
 # 2. full Coq build (.vo, no quick modes)
 ( cd coq && coq_makefile -f _CoqProject -o Makefile >/dev/null 2>&1 && timeout 3000 make -j16 2>&1 | grep -v '^COQC\|^COQDEP\|Closed under' | tail -20 ) || echo "setup: coq build incomplete (the affected checks will report it)"
 # 3. OCaml drivers around extracted code
-( cd ocaml && for d in hidvm exprparser hidlex hidctx hidexit hidtypes hidtracker hidpat hidlower; do
+( cd ocaml && for d in hidvm exprparser hidlex hidctx hidexit hidtypes hidtracker hidpat hidlower hidlowerstmt; do
     core=${d}_core; [ "$d" = hidvm ] && core=hidvm_core
     if [ -f $d.ml ]; then
       cores=$(ls ${d}_core.mli ${d}_core.ml 2>/dev/null || true)
